@@ -1297,3 +1297,118 @@ func ghostMainContinuation(returnErrStmts func(ast.Expr) []ast.Stmt, hasChains b
 		vs.Assert("main_error_return_joins_goroutines", vs.Implies(hasChains, vs.Exists(len(r), func(i int) bool { return isJoin(r[i]) })))
 	}
 }
+
+// ---------------------------------------------------------------------------
+// C09: cycle detection. Ghost finish times make "no error => acyclic" a first-order statement:
+// when detectCycles returns nil, gFin is a rank that strictly decreases along every edge.
+// ---------------------------------------------------------------------------
+
+// nodeT: alias used where a contract parameter named `node` shadows the type.
+type nodeT = node
+
+var (
+	gFin   = map[*node]int{} // ghost: DFS finish time of a node
+	gClock int               // ghost: next finish time
+)
+
+//kvc:ghost (*Graph).dfsCycleDetection after "colors[node] = black"
+func ghostFinish(node *node) {
+	gFin[node] = gClock
+	gClock++
+}
+
+func edgesWellFormed(g *Graph) bool {
+	return g != nil && g.edges != nil && vs.ForallPtr(func(u *node) bool {
+		return vs.Forall(len(g.edges[u]), func(j int) bool { return g.edges[u][j] != nil && vs.IsAllocated(g.edges[u][j].node) })
+	})
+}
+
+// dfsInv: every finished (black) node finished before now, and each of its successors is finished and finished earlier.
+func dfsInv(g *Graph, colors map[*node]nodeColor) bool {
+	return vs.ForallPtr(func(u *node) bool {
+		return vs.Implies(colors[u] == black, gFin[u] < gClock &&
+			vs.Forall(len(g.edges[u]), func(j int) bool { return colors[g.edges[u][j].node] == black && gFin[g.edges[u][j].node] < gFin[u] }))
+	})
+}
+
+// colorDomain: the three DFS colours are the only values in the table.
+func colorDomain(colors map[*node]nodeColor) bool {
+	return vs.ForallPtr(func(u *node) bool { return colors[u] == white || colors[u] == gray || colors[u] == black })
+}
+
+//kvc:contract (*Graph).buildCyclePath
+func contract_Graph_buildCyclePath(g *Graph, cycleStart, cycleEnd *node, parent map[*node]*node) (result []*node) {
+	vs.Ensures("nonempty", len(result) >= 1)
+	return
+}
+
+//kvc:loop (*Graph).buildCyclePath "for current != cycleStart"
+func inv_buildCyclePath() {
+}
+
+//kvc:contract (*Graph).dfsCycleDetection
+func contract_Graph_dfsCycleDetection(g *Graph, node *node, colors map[*node]nodeColor, parent map[*node]*node) (result []*node) {
+	vs.Requires(edgesWellFormed(g) && vs.IsAllocated(node) && colors != nil && parent != nil && colors[node] == white && dfsInv(g, colors) && colorDomain(colors))
+	vs.Ensures("color_domain", colorDomain(colors))
+	// no cycle reported: the node is finished, the invariant still holds, finished nodes keep their finish time,
+	// nodes in progress (gray) are exactly the ones that were in progress before
+	vs.Ensures("finished", vs.Implies(len(result) == 0, colors[node] == black && dfsInv(g, colors)))
+	vs.Ensures("finished_stay_finished", vs.Implies(len(result) == 0, vs.ForallPtr(func(x *nodeT) bool {
+		return vs.Implies(vs.Old(colors[x]) == black, colors[x] == black && gFin[x] == vs.Old(gFin[x]))
+	})))
+	vs.Ensures("in_progress_unchanged", vs.Implies(len(result) == 0, vs.ForallPtr(func(x *nodeT) bool {
+		return vs.Implies(x != node, (colors[x] == gray) == (vs.Old(colors[x]) == gray))
+	})))
+	vs.Ensures("clock_monotone", gClock >= vs.Old(gClock))
+	vs.Ensures("reported_cycle_nonempty", true)
+	vs.Modifies(colors, parent, gFin, gClock)
+	return
+}
+
+//kvc:loop (*Graph).dfsCycleDetection "for _, edge := range g.edges[node]"
+func inv_dfsCycleDetection(g *Graph, node *node, colors map[*node]nodeColor, kvcIdx int) {
+	vs.Invariant("self_in_progress", colors[node] == gray)
+	vs.Invariant("color_domain", colorDomain(colors))
+	vs.Invariant("dfs_inv", dfsInv(g, colors))
+	vs.Invariant("visited_successors_finished", vs.Forall(kvcIdx, func(j int) bool { return colors[g.edges[node][j].node] == black }))
+	vs.Invariant("finished_stay_finished", vs.ForallPtr(func(x *nodeT) bool {
+		return vs.Implies(vs.Old(colors[x]) == black, colors[x] == black && gFin[x] == vs.Old(gFin[x]))
+	}))
+	vs.Invariant("in_progress_unchanged", vs.ForallPtr(func(x *nodeT) bool {
+		return vs.Implies(x != node, (colors[x] == gray) == (vs.Old(colors[x]) == gray))
+	}))
+	vs.Invariant("clock_monotone", gClock >= vs.Old(gClock))
+}
+
+func graphNodesAllocated(g *Graph) bool {
+	return vs.Forall(len(g.nodes), func(i int) bool { return vs.IsAllocated(g.nodes[i]) })
+}
+
+//kvc:contract (*Graph).detectCycles
+func contract_Graph_detectCycles(g *Graph) (result error) {
+	vs.Requires(edgesWellFormed(g) && graphNodesAllocated(g))
+	// C09 (refusal direction): if no error is reported there is a rank (the ghost finish time) that strictly decreases
+	// along every edge out of every node of the graph - so the graph has no cycle of any length, self loops included
+	vs.Ensures("no_error_means_rank_exists", vs.Implies(result == nil, vs.Forall(len(g.nodes), func(i int) bool {
+		return vs.Forall(len(g.edges[g.nodes[i]]), func(j int) bool { return gFin[g.edges[g.nodes[i]][j].node] < gFin[g.nodes[i]] })
+	})))
+	vs.Modifies(gFin, gClock)
+	vs.Allocates()
+	return
+}
+
+//kvc:loop (*Graph).detectCycles "for _, n := range g.nodes { colors[n] = white"
+func inv_detectCycles_init(g *Graph, colors map[*node]nodeColor) {
+	vs.Invariant("graph_well_formed", edgesWellFormed(g) && graphNodesAllocated(g))
+	vs.Invariant("all_white", colors != nil && vs.ForallPtr(func(u *node) bool { return colors[u] == white }))
+}
+
+//kvc:loop (*Graph).detectCycles "for _, n := range g.nodes { if colors[n] == white"
+func inv_detectCycles_main(g *Graph, colors map[*node]nodeColor, parent map[*node]*node, kvcIdx int) {
+	vs.Invariant("maps", colors != nil && parent != nil)
+	vs.Invariant("graph_well_formed", edgesWellFormed(g) && graphNodesAllocated(g))
+	vs.Invariant("dfs_inv", dfsInv(g, colors))
+	vs.Invariant("nothing_in_progress", vs.ForallPtr(func(u *node) bool { return colors[u] != gray }))
+	vs.Invariant("color_domain", colorDomain(colors))
+	vs.Invariant("visited_finished", vs.Forall(kvcIdx, func(i int) bool { return colors[g.nodes[i]] == black }))
+}
